@@ -202,7 +202,7 @@ pub fn check_merge<const N: usize>(acc: &mut Acc, c: &MergeCase) -> bool {
         // the right graph must still be the whole tree (a read must not have collected it)
         let mut want: Vec<usize> = c.h_ids.clone();
         want.sort_unstable();
-        if guarded(|| hg.keys()).ok() != Some(want) {
+        if guarded(|| crate::real::keys_sorted(&hg)).ok() != Some(want) {
             return false;
         }
         acc.bump("merges_of_a_right_tree_holding_read_data", 1);
@@ -308,7 +308,7 @@ pub fn check_merge<const N: usize>(acc: &mut Acc, c: &MergeCase) -> bool {
                     }
                 }
             }
-            let keys = guarded(|| gc.keys()).unwrap_or_default();
+            let keys = guarded(|| crate::real::keys_sorted(&gc)).unwrap_or_default();
             if keys != mc.keys() {
                 fail(acc, c, "merge:wrong-collection-after-merge", format!("after the merge, reading {done:?}: alive set {keys:?} but add/bind/put of the same graft would leave {:?}", mc.keys()));
                 return true;
